@@ -93,6 +93,7 @@ uint64_t g_seq = 0;
 bool g_fair = false;
 uint32_t g_rr_left = 0;
 uint64_t g_idle_jumps = 0;
+uint64_t g_quiet_steps = 0;
 int64_t g_pct_low = -1;
 uint64_t g_pct_points[8];
 AbandonHandler g_abandon = nullptr;
@@ -394,8 +395,17 @@ void check_stalls(Thread* me, uint8_t kind)
   }
 }
 
+bool g_trace = false;
+
 void step_common(Thread* me, uint8_t kind, uint64_t value)
 {
+  if (g_trace)
+  {
+    // debugging aid for replays (SIM_TRACE=1); never draws from the PRNG or reads a real clock
+    g_in_sched = true;
+    fprintf(stderr, "T%d k%d v%lu now=%lu step=%lu\n", me->id, kind, value, g_now, g_stats.steps);
+    g_in_sched = false;
+  }
   ++g_stats.steps;
   ++g_seq;
   ++me->yields;
@@ -426,6 +436,23 @@ void step_common(Thread* me, uint8_t kind, uint64_t value)
       kind == K_CREATE || kind == K_EXIT || kind == K_FWRITE || kind == K_USER)
   {
     g_idle_jumps = 0;
+    g_quiet_steps = 0;
+  }
+  else
+  {
+    ++g_quiet_steps;
+    if (kind == K_LOAD && g_quiet_steps > 5000)
+    {
+      // A thread spinning on atomic loads only (a producer blocked on a full queue with retry
+      // interval 0) while everybody else sleeps: let its steps take longer and longer, so that the
+      // sleepers' deadlines (a 60 s backend sleep) are reached in thousands, not 10^8, steps.
+      uint64_t sh = (g_quiet_steps - 5000) / 64;
+      if (sh > 36)
+      {
+        sh = 36;
+      }
+      g_now += static_cast<uint64_t>(g_cfg.delta_ns) << sh;
+    }
   }
   if (!g_fair)
   {
@@ -549,6 +576,7 @@ void start(Config const& cfg)
   g_seq = 0;
   g_fair = false;
   g_idle_jumps = 0;
+  g_quiet_steps = 0;
   g_pct_low = -1;
   g_nmutexes = 0;
   g_exiter = nullptr;
@@ -566,6 +594,7 @@ void start(Config const& cfg)
   t_self = t;
   g_stats.threads_created = 1;
   g_clock_only = false;
+  g_trace = getenv("SIM_TRACE") != nullptr;
   g_active = true;
 }
 
@@ -706,6 +735,35 @@ uint64_t thread_yields(int id) { return id < g_nthreads ? g_threads[id]->yields 
 // internal entry points used by the interposed functions below
 namespace ipc
 {
+// Polling threads: when nothing but loads, clock reads, sleeps and yields has happened for a long
+// time (every running thread is polling, e.g. flush_log() callers while the backend sleeps for a
+// minute), a poller that goes to sleep oversleeps until the latest deadline any other thread is
+// waiting for — i.e. until the next moment at which something can change. Oversleeping is legal for
+// every sleep primitive; the global clock itself is never accelerated, so a thread that measures
+// time (RdtscClock::resync) is not disturbed.
+uint64_t poll_oversleep(uint64_t ns)
+{
+  if (g_quiet_steps <= 1500)
+  {
+    return 0;
+  }
+  uint64_t const own = g_now + ns;
+  uint64_t mx = 0;
+  for (int i = 0; i < g_nthreads; ++i)
+  {
+    Thread* t = g_threads[i];
+    if (t != t_self && (t->state == SLEEPING || t->state == BLK_CV) && t->has_deadline && t->deadline > mx)
+    {
+      mx = t->deadline;
+    }
+  }
+  if (mx > own + (1ull << 42))
+  {
+    mx = own + (1ull << 42);
+  }
+  return mx > own ? mx - own + 1 : 0;
+}
+
 uint64_t clock_read()
 {
   if (simulated())
@@ -728,7 +786,7 @@ void sleep_ns(uint64_t ns)
   {
     me->state = SLEEPING;
     me->has_deadline = true;
-    me->deadline = g_now + ns;
+    me->deadline = g_now + ns + poll_oversleep(ns);
     me->sleep_len = ns;
   }
   reschedule(K_SLEEP);
@@ -1060,7 +1118,14 @@ int sched_yield(void)
   static auto real_fn = real<int (*)(void)>("sched_yield");
   if (simulated())
   {
-    yield_point(K_YIELD, 0);
+    if (g_quiet_steps > 1500)
+    {
+      ipc::sleep_ns(0); // a yield-based poll loop: treat as a (growing) sleep, see poll_oversleep
+    }
+    else
+    {
+      yield_point(K_YIELD, 0);
+    }
     return 0;
   }
   return real_fn();
